@@ -24,6 +24,39 @@ class _NLTKLikeTree(list):
     def label(self):
         return self._label
 
+    def set_label(self, label):
+        self._label = label
+
+    def height(self):
+        return 1 + max((c.height() if isinstance(c, _NLTKLikeTree) else 1) for c in self) if len(self) else 1
+
+    def leaves(self):
+        out = []
+        for c in self:
+            out.extend(c.leaves() if isinstance(c, _NLTKLikeTree) else [c])
+        return out
+
+    def pos(self):
+        if self.height() == 2:
+            return [(self[0], self._label)]
+        return [p for c in self for p in c.pos()]
+
+    def subtrees(self, filter=None):
+        if filter is None or filter(self):
+            yield self
+        for c in self:
+            if isinstance(c, _NLTKLikeTree):
+                yield from c.subtrees(filter)
+
+    def treepositions(self, order='preorder'):
+        out = [()]
+        for i, c in enumerate(self):
+            if isinstance(c, _NLTKLikeTree):
+                out.extend((i,) + p for p in c.treepositions(order))
+            else:
+                out.append((i,))
+        return out
+
 
 def _as_nltk_like(tree):
     if tree.is_leaf:
@@ -118,10 +151,9 @@ def check_case(case, info=None):
                     bad(f'{fmt}/head-direction', f'{l.cat} {rr.cat} => {r.cat} read back with head_is_left={r.head_is_left}; '
                         f'the deriving rule says {[q.head_is_left for q in deriving]}')
             else:
+                # ("only underivable nodes are labelled unknown" says where 'unknown' may appear, not what an
+                # underivable node must carry: a reader may keep the file's own label there)
                 underivable[0] += 1
-                if (r.op_string, r.op_symbol) != ('unk', '<unk>'):
-                    bad(f'{fmt}/underivable-labelled', f'{l.cat} {rr.cat} => {r.cat} is not derivable but labelled '
-                        f'({r.op_string}, {r.op_symbol})')
         if mt.shape(tree) != mt.shape(rs[0].tree):
             return fails        # round-trip of categories/shape is judged by C08 / C15 / C20
         rec(tree, rs[0].tree)
